@@ -349,6 +349,13 @@ Definition apply_tail_full (v : view) (t : tail) : res (rd * bool) :=
                   | Err e => Err e
                   | Ok y => Ok (RRows (v_rows y), is_value (v_tmpl y))
                   end
+              | RView (VNode ch) =>
+                  (* no dated member: values[0], a single record, wrapped all the same *)
+                  match find_child n ch with
+                  | None => Err EOther
+                  | Some (VNode _) => Err EType
+                  | Some c => Ok (RView c, is_value c)
+                  end
               | _ => Err EOther
               end
           end
